@@ -79,6 +79,10 @@ def block_views(ctx, gt, bi, blocks, model, address, size):
                                       b.size), {})
 
 
+LONG_STEPS = [255, 256, 257, 4095, 4096, 4097, 65535, 65536, 65537,
+              (1 << 20) - 1, 1 << 20, (1 << 20) + 1]
+
+
 def run(ctx):
     import gtirb
     gt = gtirb
@@ -124,10 +128,18 @@ def run(ctx):
         rnd = case.rnd
         ctx.count("cases")
         far = rnd.random() < 0.2
+        # 'long' histories grow and cut the stored bytes by amounts around
+        # the powers of two at which a chunked / shared-buffer padding path
+        # would plausibly switch (far more bytes than the small regime)
+        long_ = not far and rnd.random() < 0.06
+        if long_:
+            ctx.count("regime:long-contents")
         address = rnd.choice([None, 0, 5, 100]) if not far else \
             rnd.choice([U64, U64 - 3, 1 << 63])
         size = rnd.randint(0, 24) if not far else rnd.choice(
             [U64, 1 << 63, 30])
+        if long_:
+            size = 1 << 21
         n0 = min(size, rnd.randint(0, 12))
         model = bytearray(rnd.randrange(256) for _ in range(n0))
         ir = gt.IR()
@@ -178,8 +190,10 @@ def run(ctx):
             if bytes(bi.contents) != bytes(model):
                 raise Discrepancy(
                     "C19", "contents:" + after.split("=")[0],
-                    "contents are %r, expected %r after %s" % (
-                        bytes(bi.contents), bytes(model), after), {})
+                    "contents are %d bytes %r..., expected %d bytes %r... "
+                    "after %s" % (
+                        len(bi.contents), bytes(bi.contents)[:24],
+                        len(model), bytes(model)[:24], after), {})
             block_views(ctx, gt, bi, blocks, model, address, size)
 
         def roundtrip(after):
@@ -211,6 +225,10 @@ def run(ctx):
                     size = rnd.choice([0, rnd.randint(0, 24),
                                        max(0, len(model) - rnd.randint(1, 4)),
                                        len(model), len(model) + 1])
+                if long_ and rnd.random() < 0.8:
+                    size = rnd.choice([1 << 21, 1 << 21, len(model),
+                                       max(0, len(model) - rnd.choice(
+                                           LONG_STEPS)), 70000])
                 if size < len(model):
                     ctx.count("op:size_shrink_below_stored")
                     del model[size:]
@@ -219,6 +237,12 @@ def run(ctx):
                 after = "size=%d" % size
             elif op == "init":
                 n = rnd.randint(0, min(size, 30))
+                if long_ and rnd.random() < 0.7:
+                    gap = rnd.choice(LONG_STEPS)
+                    n = len(model) + rnd.choice([gap, gap, -gap])
+                    if not 0 <= n <= size:
+                        n = rnd.randint(0, min(size, 30))
+                    ctx.seen("long_init_steps", n - len(model))
                 ctx.count("op:init_grow" if n > len(model) else
                           "op:init_shrink" if n < len(model)
                           else "op:init_same")
